@@ -1,5 +1,4 @@
-CONSTANTS MaxLen = 4
-          NSym = 28
+CONSTANT NL = 3
 INIT Init
 NEXT Next
 CHECK_DEADLOCK FALSE
